@@ -144,7 +144,7 @@ def declare_two(mod):
     a.AddVariable('P', 'driver', '0.5*LAG_P + Z')
     a.AddVariable('LAG_P', 'lag', 'P(k-1)')
     a.AddVariable('Z', 'input path', '1.0')
-    a.SetExogenous('Z', '[1.0, 2.0, 4.0] + [3.0]*20')
+    mod.AddExogenous('AA', 'Z', '[1.0, 2.0, 4.0] + [3.0]*20')      # by sector code: looked up at main()
     name_p = a.GetVariableName('P')
     b.AddVariable('Q', 'follows P', '0.25*Q + 0.5*' + name_p)
     b.AddVariable('R', 'decorative', 'Q - ' + name_p)
@@ -369,21 +369,21 @@ def first_bad(events):
 
 
 def signature(clause, events):
+    """short stable name of WHAT fails, taken from the first event that shows it"""
     e = first_bad(events)
     if e is None:
         return clause + ':unlocated'
     if clause == 'C17_ReparseClean':
-        others = set()
-        for n, blk in BLOCKS.items():
-            others |= set(blk['declared'])
-        if e['remnants'] and set(e['remnants']) <= others:
-            return 'stale-variable-list-after-reparse'
+        if e['remnants'] and set(e['remnants']) <= set(e['varlist']):
+            return 'stale-variable-list-after-reparse'        # the cached VariableList still names them
+        if e['remnants']:
+            return 'remnant-series-after-reparse'
         return 'reparse-key-set-differs:' + e['b']
     if not e['ok']:
         cls = e['exc'].split(':')[0]
         if e['ev'] in ('Solve', 'SolveAgain') and e['traced'] and e['hasfunc'] and cls == 'TypeError':
             return 'traced-step-with-user-function-raises-TypeError'
-        return '%s-raises-%s%s' % (e['ev'], cls, ':traced' if e['traced'] else '')
+        return '%s-raises-%s' % (e['ev'], cls)
     if clause == 'C17_ResolveIdempotent':
         return 'resolve-changes-series:' + e['b']
     what = 'model:' + e['x'] if e['ev'] == 'Main' else 'block:' + e['b']
@@ -457,34 +457,65 @@ def judge(rep, behs, refs, wd, n_fresh, n_batches):
     _phase(rep, 'trace_validation', t0)
     rep.traces += len(traces)
     rep.extra['trace_validation_states'] = rep.extra.get('trace_validation_states', 0) + st
-    minimised = set()
+    groups = {}
+    order_of = []
     for tid, evs in traces:
         v = verdicts[tid]
         if v == 'ok:':
             continue
         kind, clause = v.split(':', 1)
         i = int(tid[1:])
-        case = {'hist': behs[i]['hist'], 'mode': 'fresh', 'prefix': [], 'observed': evs}
         if kind != 'property':
-            rep.add_drift(clause, case)
+            rep.add_drift(clause, {'hist': behs[i]['hist'], 'mode': 'accumulated' if tid[0] == 'a' else 'fresh',
+                                   'observed': evs})
             continue
-        sig = signature(clause, evs)
+        key = (clause, signature(clause, evs))
+        if key not in groups:
+            groups[key] = []
+            order_of.append(key)
+        groups[key].append((tid, evs))
+
+    def case_of(tid, evs, with_prefix):
+        i = int(tid[1:])
+        case = {'hist': behs[i]['hist'], 'mode': 'fresh', 'prefix': [], 'observed': evs}
         if tid[0] == 'a':
             bi, pos = where[i]
             case['mode'] = 'accumulated'
             case['prefix_histories'] = pos
-            if (clause, sig) not in minimised:
-                minimised.add((clause, sig))
-                # does the history fail in a process of its own?  then the prefix is not needed
+            if with_prefix:
+                case['prefix'] = [behs[j]['hist'] for j in batches[bi][:pos]]
+        return case
+
+    for key in order_of:
+        clause, sig = key
+        members = groups[key]
+        # representative (it becomes the replay file): a history that fails in a process of its own if there
+        # is one (observed so, or re-executed alone now), else the first one together with its process prefix
+        lead = None
+        lead_tid = None
+        for tid, evs in members:
+            if tid[0] == 'f' or where[int(tid[1:])][1] == 0:
+                lead = case_of(tid, evs, False)
+                lead['mode'] = 'fresh'
+                lead_tid = tid
+                break
+        if lead is None:
+            for tid, evs in members[:3]:
+                i = int(tid[1:])
                 alone = run_children([{'items': [{'tid': 'm0', 'hist': behs[i]['hist']}], 'refs': refs}], wd)
                 va, _, _ = validate([('m0', alone['m0'])], tag='c17m')
-                if va['m0'] == v and signature(clause, alone['m0']) == sig:
-                    case = {'hist': behs[i]['hist'], 'mode': 'fresh', 'prefix': [], 'observed': alone['m0']}
-                else:
-                    case['prefix'] = [behs[j]['hist'] for j in batches[bi][:pos]]
-        e = first_bad(evs) or {}
-        rep.violate(clause, sig, case, detail='%s(%s %s) %s %s' % (
-            e.get('ev'), e.get('x'), e.get('b'), e.get('exc', ''), e.get('diff', '')))
+                if va['m0'] == 'property:' + clause and signature(clause, alone['m0']) == sig:
+                    lead = {'hist': behs[i]['hist'], 'mode': 'fresh', 'prefix': [], 'observed': alone['m0']}
+                    lead_tid = tid
+                    break
+        if lead is None:
+            lead_tid = members[0][0]
+            lead = case_of(lead_tid, members[0][1], True)
+        # the representative first (it stands for the member it was made from), then the other members
+        for case in [lead] + [case_of(t, e, False) for t, e in members if t != lead_tid]:
+            e = first_bad(case['observed']) or {}
+            rep.violate(clause, sig, case, detail='%s(%s %s) %s %s' % (
+                e.get('ev'), e.get('x'), e.get('b'), e.get('exc', ''), e.get('diff', '')))
 
 
 def run(rep):
@@ -531,7 +562,7 @@ def run(rep):
                     behs.append(b)
             del res.printed[:]
             res.stdout = ''
-        round_size = 8000
+        round_size = 8000 if quick else 16000
         n_rounds = int(math.ceil(len(behs) / float(round_size)))
         n_fresh_total = 48 if quick else 320
         for r in range(n_rounds):
